@@ -27,6 +27,12 @@ fields are always empty.
 Coordinates, names, colours, transformations are not modelled: no identifier decision reads them.
 Index arguments of `Op` are raw numbers reduced modulo the current length (`pick`), exactly as the
 harness does, so that generated histories stay meaningful; the theorems quantify over all of them.
+Refused calls (`rmAbsentPoint`, `rmAbsent`, `rmForeign`, `insAnchorBad`, `insGuideBad`, and the
+assignments `setAnchorsBad` / `setGuidesBad` cut short by an invalid dict): the code raises before any
+identifier statement runs (`list.remove`, the membership guards, `Color()` ahead of the identifier in
+`Anchor/Guideline.__init__`); which stranger / which invalid colour is used is the harness's business.
+A re-opened font is modelled as read at once; the harness also leaves it unread until the first
+guideline call (lazy reading of fontinfo.plist), the differential run checks that this is equivalent.
 Domain restrictions shared with the harness (it does not call defcon there): `Contour.reverse`
 only on contours fontTools can draw before and after (`drawOk`), no re-insertion of a component
 that would make the component graph cyclic, files for reload/reopen with unique identifiers.
@@ -1082,6 +1088,14 @@ inductive Op where
   | instGuide (t : Nat) (v : Option Id)
   | reload (t : Nat) (d : Data)
   | reopen (ds : List Data) (fg : List (Option Id)) (thenAnchor : Option (Nat × Id))
+  /- calls the container refuses outright (see `step`) -/
+  | rmAbsentPoint (t rc : Nat)
+  | rmAbsent (kind t k : Nat)
+  | rmForeign (kind t src r : Nat)
+  | insAnchorBad (t r : Nat) (v : Option Id)
+  | insGuideBad (t r : Nat) (v : Option Id)
+  | setAnchorsBad (t : Nat) (vs : List (Option Id))
+  | setGuidesBad (t : Nat) (vs : List (Option Id))
 deriving Repr
 
 def World.get (w : World) (t : Nat) : Glyph := w.conts[t]?.getD {}
@@ -1454,6 +1468,66 @@ def step (w : World) : Op → World × Res
       | some (t, x) =>
         let g := w1.get t
         w1.on t fun g' => insertAnchor g' g.anchors.length (some x)
+  /- `contour.removePoint(point)` with a Point object that is not in the contour (a point of another
+     contour, the object `reverse()` replaced by a new one carrying the same identifier, a free-standing
+     point): `self._points.remove(point)` comes first and raises ValueError; the identifier of the point
+     — which an object of the glyph may well carry — is not looked at. -/
+  | .rmAbsentPoint t rc =>
+    match pick (w.get t).contours rc with
+    | none => (w, empty)
+    | some _ => (w, .err .value)
+  /- `container.remove<Kind>(object)` with a detached object (one of the limbo): the membership test
+     comes first (`IndexError` for a contour, `ValueError` for the other kinds). -/
+  | .rmAbsent kind _ k =>
+    match kind with
+    | 0 => match pick w.limboC k with
+      | none => (w, empty)
+      | some _ => (w, .err .index)
+    | 1 => match pick w.limboK k with
+      | none => (w, empty)
+      | some _ => (w, .err .value)
+    | 2 => match pick w.limboA k with
+      | none => (w, empty)
+      | some _ => (w, .err .value)
+    | _ => match pick w.limboG k with
+      | none => (w, empty)
+      | some _ => (w, .err .value)
+  /- `container.remove<Kind>(object)` with an object that sits in ANOTHER container `src` -/
+  | .rmForeign kind t src r =>
+    if t = src then (w, empty)
+    else
+      match kind with
+      | 0 => match pick (w.get src).contours r with
+        | none => (w, empty)
+        | some _ => (w, .err .index)
+      | 1 => match pick (w.get src).comps r with
+        | none => (w, empty)
+        | some _ => (w, .err .value)
+      | 2 => match pick (w.get src).anchors r with
+        | none => (w, empty)
+        | some _ => (w, .err .value)
+      | _ => match pick (w.get src).guides r with
+        | none => (w, empty)
+        | some _ => (w, .err .value)
+  /- `insertAnchor/appendAnchor/instantiateAnchor(dict)` (resp. guideline) with a dict that holds an
+     identifier AND a colour `Color()` refuses: `__init__` assigns x, y, (angle,) name, color and only
+     then identifier, so the ValueError leaves before the identifier setter has run. -/
+  | .insAnchorBad _ _ _ => (w, .err .value)
+  | .insGuideBad _ _ _ => (w, .err .value)
+  /- `glyph.anchors = [valid dicts `vs`…, a dict with an invalid colour, …]` : clear, append the valid
+     ones one by one, stop (ValueError) at the invalid one; whatever follows it is never looked at. -/
+  | .setAnchorsBad t vs =>
+    let r := setAnchors (w.get t) vs
+    ({ w.put t r.1 with limboA := pushAll w.limboA r.2.2 },
+     match r.2.1 with
+     | .ok => .err .value
+     | res => res)
+  | .setGuidesBad t vs =>
+    let r := setGuides (w.get t) vs
+    ({ w.put t r.1 with limboG := pushAll w.limboG r.2.2 },
+     match r.2.1 with
+     | .ok => .err .value
+     | res => res)
 
 def run (w : World) : List Op → World
   | [] => w
